@@ -102,8 +102,35 @@ def shift_lines(kind, n, s, vals, rng, forms, nforms_op):
         yield f"{pre}op_{d} {n} {hx(v)} {s} {rng.randrange(nforms_op)}"
 
 
+def hook_lines(tier, rng):
+    """crate-internal shl_limb / overflowing_shl1 / shr1_with_carry (+ boxed): only when the C05 hooks of
+    notes/C05.md are present in /repo and the harness hook ops are enabled (CB_C05_HOOKS=1)"""
+    for n in [1, 2, 3, 4, 5, 6, 8, 16]:
+        bits = 64 * n
+        m = 1 << bits
+        vals = [0, 1, m - 1, m >> 1, (m >> 1) - 1, 1 << 63, WMAX % m] + [rng.getrandbits(bits) for _ in range(20)] + \
+            [1 << i for i in range(0, bits, 13)]
+        for v in vals:
+            v %= m
+            yield f"c05.hook.shl1 {n} {hx(v)}"
+            yield f"c05.hook.shr1 {n} {hx(v)}"
+            for s in ([0, 1, 2, 31, 32, 33, 62, 63] if v > 3 else range(64)):
+                yield f"c05.hook.shl_limb {n} {hx(v)} {s}"
+    for n in range(1, 21):
+        bits = 64 * n
+        m = 1 << bits
+        for v in [0, 1, m - 1, m >> 1, rng.getrandbits(bits), rng.getrandbits(bits) | (m >> 1) | 1]:
+            yield f"c05.hook.bshl1 {n} {hx(v)}"
+            yield f"c05.hook.bshr1 {n} {hx(v)}"
+            for s in [0, 1, 7, 63]:
+                yield f"c05.hook.bshl_limb {n} {hx(v)} {s}"
+
+
 def gen(tier, rng):
     quick = tier == 'quick'
+    import os
+    if os.environ.get('CB_C05_HOOKS') == '1':
+        yield from hook_lines(tier, random.Random(rng.getrandbits(32)))
     widths = [1, 2, 3, 4, 5, 6, 8, 16] if quick else [1, 2, 3, 4, 5, 6, 7, 8, 12, 16, 32]
 
     # ---------------- Limb
